@@ -526,7 +526,12 @@ static void minkCase(int idx, bool inset, bool wantAConvex, bool wantBConvex) {
   TMesh tf = toMesh(Ref);
   {
     double vr = Rr.Volume(), vf = Ref.Volume();
-    if (std::fabs(vr - vf) > 1e-6 * (1 + std::fabs(vf))) { std::ostringstream s; s.precision(12); s << "dispatch-volume: real result has volume " << vr << ", the composition the model's plan describes (" << desc << ") has " << vf; fail(s.str()); }
+    // Both solids are unions of up to thousands of QuickHull results whose faces are placed only to QuickHull's own
+    // epsilon (~1e-7 * scale, quickhull.cpp:30,238,817) and which overlap in nearly coincident faces; measured on the
+    // unchanged tree the two volumes agree to a few 1e-6 relative (worst seen 4.6e-6 on a 512-hull non-convex pair).
+    // The volume comparison is a coarse sanity test (1e-4 relative); the point classification below carries the clause.
+    const double volAllow = 1e-4 * (1e-2 + std::fabs(vf));
+    if (std::fabs(vr - vf) > volAllow) { std::ostringstream s; s.precision(12); s << "dispatch-volume: real result has volume " << vr << ", the composition the model's plan describes (" << desc << ") has " << vf; fail(s.str()); }
     V3 lo, hi;
     for (int k = 0; k < 3; k++) { lo[k] = std::min(tr.t.empty() ? tf.lo[k] : tr.lo[k], tf.t.empty() ? tr.lo[k] : tf.lo[k]); hi[k] = std::max(tr.t.empty() ? tf.hi[k] : tr.hi[k], tf.t.empty() ? tr.hi[k] : tf.hi[k]); }
     if (!(tr.t.empty() && tf.t.empty()))
